@@ -24,7 +24,8 @@ ASSUMPTIONS = [
     "every repeatable child of every rule repeated 65 and 300 times",
 ]
 
-UNKNOWN_NAMES = ["zzUnknownElement", "", "eml:eml"]
+UNKNOWN_NAMES = ["zzUnknownElement", "", "eml:eml", "{https://eml.ecoinformatics.org/eml-2.2.0}title", "{}title", "eml:title",
+                 "{urn:x}zzUnknown", "Title", "title ", "{title", "metadata:"]
 ATTR_MENU = ["valid", "required_missing", "enum_wrong", "foreign", "value_none"]
 
 
@@ -234,6 +235,35 @@ def pump_work(name):
     return acc
 
 
+NON_STRING_CONTENT = [0, 0.0, False, 7, 1.5, True, -1, b"bytes", ("t",)]
+
+
+def nonstring_work(name):
+    """content handed to the constructor that is not a string (the model turns it into text or keeps it; either way validating
+    the node stays total)"""
+    acc = core.Acc()
+    n = 0
+    for v in NON_STRING_CONTENT:
+        for via in ("constructor", "setter"):
+            core.reset_store()
+            try:
+                if via == "constructor":
+                    root = Node(name, content=v)
+                else:
+                    root = Node(name)
+                    root.content = v
+            except Exception:  # noqa  (a model that refuses such content at once is fine)
+                continue
+            n += 1
+            case = {"kind": "nonstring", "element": name, "content_repr": repr(v), "via": via, "spec": None}
+            probs = check_tree(root, case, acc)
+            if probs:
+                acc.add_problems(probs)
+    acc.count("trees", n)
+    acc.count("nonstring_content_trees", n)
+    return acc
+
+
 def chain_spec(name, depth, bottom_fault):
     nm = ruleinfo.node_mappings()
     rn = nm.get(name)
@@ -308,6 +338,9 @@ def plan(tier):
     for name in sorted(nm):
         if nm[name] in ruleinfo.table() and name != "metadata":
             items.append(("pump", name))
+    # 2c. content that is not a string, through the constructor and through the setter
+    for name in sorted(nm) + ["zzUnknownElement"]:
+        items.append(("nonstring", name))
     # 3. chains
     for name in ("taxonomicClassification", "section", e3.UNKNOWN):
         for depth in (1, 10, 50, 100):
@@ -324,11 +357,16 @@ def work(item):
         return neighbourhood_work(payload)
     if kind == "pump":
         return pump_work(payload)
+    if kind == "nonstring":
+        return nonstring_work(payload)
     return chain_work(payload)
 
 
 def replay(case):
     core.reset_store()
+    if case["kind"] == "nonstring":
+        a = nonstring_work(case["element"])
+        return [p for ps in a.problems.values() for p in ps if p["case"].get("content_repr") == case.get("content_repr") and p["case"].get("via") == case.get("via")]
     if case["kind"] == "pump":
         a = pump_work(case["element"])
         return [p for ps in a.problems.values() for p in ps if p["case"].get("repeated") == case.get("repeated") and p["case"].get("length") == case.get("length")]
